@@ -1,6 +1,7 @@
 // C16 harness: the real PopValidator / checkPopData on real threads.
 //
-//   <id> check <workers> <seed> <maxdelay_us> <spec> <dup> <stopmode> <rounds> <realhash>
+//   <id> check <workers> <seed> <maxdelay_us> <spec> <dup> <stopmode> <rounds> <realhash> [<maxATV>/<maxVTB>/<maxVBK>]
+//   <id> ring <size> <ops..>     the real tp::MPMCBoundedQueue<uint64_t>: u<val> push, o pop -> 1|0 per push, <val>|- per pop
 //
 // spec: one character per payload, in submission order (context blocks first, then ATVs):
 //   v  VbkBlock (regtest, valid proof of work)          x  VbkBlock with height below the fork height
@@ -232,6 +233,15 @@ static std::string sequential(const std::string& spec, bool dup, uint32_t round,
 int main() {
   return vh::main_loop([](const std::string& id, const std::string& op, const std::vector<std::string>& a) -> std::string {
     std::cout.flush();  // a sanitizer abort must not lose the results of earlier cases
+    if (op == "ring" && a.size() >= 1) {
+      tp::MPMCBoundedQueue<uint64_t> q((size_t)std::stoul(a[0]));
+      std::string out;
+      for (size_t i = 1; i < a.size(); i++) {
+        if (a[i][0] == 'u') out += (q.push(std::stoull(a[i].substr(1))) ? " 1" : " 0");
+        else { uint64_t v = 0; out += q.pop(v) ? " " + std::to_string(v) : std::string(" -"); }
+      }
+      return std::to_string(a.size() - 1) + out;
+    }
     if (op != "check" || a.size() < 7) return "UNKNOWN-OP";
     size_t workers = (size_t)std::stoul(a[0]);
     uint64_t seed = std::stoull(a[1]);
@@ -241,6 +251,15 @@ int main() {
     int stopmode = std::stoi(a[5]);
     uint32_t rounds = (uint32_t)std::stoul(a[6]);
     g_realhash = a.size() > 7 && a[7] == "1";
+    // optional small limits "maxATVs/maxVTBs/maxVbkBlocks": the per-worker queue capacity becomes
+    // upper_power_of_two(sum), so a long-lived validator wraps its ring buffers many times
+    g_alt.mMaxATVsInAltBlock = 1000; g_alt.mMaxVTBsInAltBlock = 200; g_alt.mMaxVbkBlocksInAltBlock = 200;
+    if (a.size() > 8 && a[8] != "0") {
+      unsigned la = 0, lv = 0, lb = 0;
+      if (sscanf(a[8].c_str(), "%u/%u/%u", &la, &lv, &lb) == 3) {
+        g_alt.mMaxATVsInAltBlock = la; g_alt.mMaxVTBsInAltBlock = lv; g_alt.mMaxVbkBlocksInAltBlock = lb;
+      }
+    }
 
     g_seed.store(seed);
     std::string out, trace;
@@ -270,7 +289,9 @@ int main() {
         for (size_t i = 0; i < g_events.size(); i++)
           trace += (i ? "," : "") + std::to_string(g_events[i].worker) + ":" + std::to_string(g_events[i].payload);
       }
-      if (stopmode == 1 && r + 1 < rounds) {
+      if (stopmode == 3 && r + 1 < rounds) {
+        if (r % 7 == 6) { val->stop(); val->start(workers); }
+      } else if (stopmode == 1 && r + 1 < rounds) {
         val->stop();
         val->start(workers);
       } else if (stopmode == 2 && r + 1 < rounds) {
